@@ -243,6 +243,29 @@ def replay_file(path, quiet=False):
     return ok, info
 
 
+def replay_search(path, n):
+    """Re-find the recorded violation by schedule search on the recorded workload (used for
+    committed known-finding replays, whose exact decision traces go stale whenever unrelated
+    code motion in /repo renumbers the yield points)."""
+    with open(path) as f:
+        rp = json.load(f)
+    mod = load_prop(rp["property"])
+    fam_of = getattr(mod, "family", lambda x: x)
+    want = fam_of(rp["expect"]["sig"])
+    base = rp["spec"]["sim"]["seed"]
+    for k in range(n):
+        spec = json.loads(json.dumps(rp["spec"]))
+        spec["sim"]["seed"] = splitmix64(base + k) >> 16
+        if k % 3 == 1:
+            spec["sim"].update({"strategy": "uniform", "line_q": 0.15, "line": True})
+        elif k % 3 == 2:
+            spec["sim"].update({"strategy": "pb", "d": 2, "line_q": 1.0, "line": True, "est": 2000})
+        r = execute(mod, spec)
+        if r.harness_error is None and any(fam_of(v["sig"]) == want for v in r.viol):
+            return True, {"schedule_seed_index": k, "sig": [v["sig"] for v in r.viol if fam_of(v["sig"]) == want][0]}
+    return False, {}
+
+
 def _count_preempt(trace):
     return len(trace)
 
@@ -357,8 +380,17 @@ def repo_tree_id():
         return "unknown"
 
 
-def check_main(prop, tier, replay=None):
+def check_main(prop, tier, replay=None, search=0):
     script = os.path.join(VERIF, "simcheck.py")
+    if replay and search:
+        ok, info = replay_search(replay, search)
+        print(json.dumps(info))
+        if ok:
+            print("VIOLATION property=%s replay=%s" % (prop, replay))
+            print("recorded violation re-found by schedule search on the recorded workload")
+            return 1
+        print("schedule search on the recorded workload did not re-find the violation")
+        return 0
     if replay:
         ok, info = replay_file(replay)
         st = info.pop("stacks", {})
@@ -397,7 +429,13 @@ def check_main(prop, tier, replay=None):
             if rp and os.path.exists(os.path.join(VERIF, rp)):
                 p = subprocess.run([PY, script, prop, "--replay", os.path.join(VERIF, rp)],
                                    capture_output=True, text=True, env=_child_env(), timeout=300)
-                state = "reproduced by %s" % rp if p.returncode == 1 else "committed replay no longer reproduces (rc=%d)" % p.returncode
+                if p.returncode == 1:
+                    state = "reproduced by %s" % rp
+                else:
+                    p = subprocess.run([PY, script, prop, "--replay", os.path.join(VERIF, rp), "--search", "600"],
+                                       capture_output=True, text=True, env=_child_env(), timeout=600)
+                    state = ("reproduced by schedule search on the workload of %s (its exact trace is stale for this tree)" % rp
+                             if p.returncode == 1 else "no longer reproduces on this tree (exact trace and 600-schedule search)")
             known_reported[fd["id"]] = state
 
     # 1. fan out
